@@ -295,6 +295,11 @@ class World:
         if not is_c(p.off):
             if s.race:
                 s.acc.append(('R', p.obj, p.off, n)); return [z3.FreshConst(z3.BitVecSort(64 if n >= 8 else n * 8), 'hv') for _ in range(max(1, n // 8))]
+            if getattr(s, 'cur_it', None) is not None and not getattr(s, '_pinning', False):
+                s._pinning = True
+                try: p = s.cur_it.pin(p)
+                finally: s._pinning = False
+                return s.load_bytes(p, n, ity)
             raise Unsupported('load at symbolic offset of a bounded object')
         s._check(p, n, 'load')
         if s.race: s.acc.append(('R', p.obj, p.off, n))
@@ -331,6 +336,11 @@ class World:
             return
         if not is_c(p.off):
             if s.race: s.acc.append(('W', p.obj, p.off, n)); return
+            if getattr(s, 'cur_it', None) is not None and not getattr(s, '_pinning', False):
+                s._pinning = True
+                try: p = s.cur_it.pin(p)
+                finally: s._pinning = False
+                return s.store_bytes(p, n, vals)
             raise Unsupported('store at symbolic offset of a bounded object')
         s._check(p, n, 'store')
         if s.race: s.acc.append(('W', p.obj, p.off, n))
@@ -443,7 +453,7 @@ def _qcheck(sv):
 
 class Interp:
     def __init__(s, world, decisions=None, solver=None):
-        s.w = world; s.calls = 0; s.pc = []; s.decisions = list(decisions or []); s.dpos = 0; s.worklist = []
+        s.w = world; world.cur_it = s; s.calls = 0; s.pc = []; s.decisions = list(decisions or []); s.dpos = 0; s.worklist = []
         s.solver = solver; s.asm = None; s.depth = 0; s.conc_cap = 64; s.trace = None; s.loopcut = {}
         from . import x86asm
         s.asm = x86asm.X86()
@@ -579,6 +589,14 @@ class Interp:
             return z3.Concat(*[z3.Extract(unit * i + unit - 1, unit * i, x) for i in range(wd // unit)])
         if name.startswith('@llvm.floor'): import math; return float(math.floor(a[0]))
         if name.startswith('@llvm.log2'): import math; return math.log2(a[0])
+        if (name.startswith('@llvm.ctlz') or name.startswith('@llvm.cttz')) and not is_c(a[0]) and not isinstance(a[0], (list, FV, Half)):
+            # symbolic count of leading/trailing zeros: a chain of comparisons on single bits (exact)
+            wd = int(re.search(r'i(\d+)$', name).group(1)); x = tobv(a[0], wd); r = bvv(wd, wd)
+            rng_ = range(wd) if 'ctlz' in name else range(wd - 1, -1, -1)
+            for i in rng_:      # the last assignment that applies wins: iterate from the least significant candidate
+                cnt = (wd - 1 - i) if 'ctlz' in name else i
+                r = z3.If(z3.Extract(i, i, x) == bvv(1, 1), bvv(cnt, wd), r)
+            return r
         if name.startswith('@llvm.ctpop') or name.startswith('@llvm.ctlz') or name.startswith('@llvm.cttz'):
             x = s.concretize(a[0]); wd = int(re.search(r'i(\d+)$', name).group(1))
             if 'ctpop' in name: return bin(x).count('1')
@@ -726,11 +744,11 @@ class Interp:
                     n = 1 if ins.n is None else s.concretize(s.val(env, *ins.n), 64, 'alloca size')
                     o = Obj(w.sizeof(ins.ty) * n, 'alloca' + str(ins.res) + '@' + f.name, ins.align or 8, 'alloca'); env[ins.res] = Ptr(o, 0)
                 elif op == 'load':
-                    p = s.val(env, *ins.ptr)
+                    p = s.pin(s.val(env, *ins.ptr))
                     if isinstance(p, Ptr) and w.check_align and ins.align and ins.align > 8: s.check_alignment(p, ins.align, 'load')
                     env[ins.res] = w.load(p, ins.ty)
                 elif op == 'store':
-                    p = s.val(env, *ins.ptr)
+                    p = s.pin(s.val(env, *ins.ptr))
                     if isinstance(p, Ptr) and w.check_align and ins.align and ins.align > 8: s.check_alignment(p, ins.align, 'store')
                     w.store(p, ins.v[0], s.val(env, *ins.v))
                 elif op == 'getelementptr': env[ins.res] = w.gep(ins.bt, s.val(env, *ins.ops[0]), [s.val(env, *o) for o in ins.ops[1:]])
@@ -771,9 +789,16 @@ class Interp:
                         nxt = ins.t if c else ins.f
                     break
                 elif op == 'switch':
-                    v = s.concretize(s.val(env, *ins.v), 64, 'switch'); nxt = ins.default
-                    for (ct, cv), lab in ins.cases:
-                        if s.val(env, ct, cv) == v: nxt = lab
+                    v = s.val(env, *ins.v); nxt = ins.default
+                    if isinstance(v, (FV, Half)): raise FieldWordOp('switch on a field word')
+                    if is_c(v):
+                        for (ct, cv), lab in ins.cases:
+                            if s.val(env, ct, cv) == v: nxt = lab
+                    else:
+                        # symbolic selector: fork on "v == case" for each case in turn, the default is what remains
+                        wd = w.rty(ins.v[0]).bits
+                        for (ct, cv), lab in ins.cases:
+                            if s.branch(tobv(v, wd) == bvv(s.val(env, ct, cv), wd)): nxt = lab; break
                     break
                 elif op == 'ret': return None if ins.v is None else s.val(env, *ins.v)
                 elif op == 'unreachable': raise Violation('ub', 'unreachable executed in ' + f.name)
@@ -782,6 +807,12 @@ class Interp:
                 elif op == 'fneg': env[ins.res] = -s.val(env, ins.ty, ins.a)
                 else: raise Unsupported('op ' + op)
             prev, cur = cur, nxt
+    def pin(s, p):
+        """a pointer into a bounded object whose offset is a symbolic term: the path condition usually fixes it (or leaves a few values): fork on them"""
+        if isinstance(p, Ptr) and p.obj is not None and not isinstance(p.obj, UObj) and not is_c(p.off) and not s.w.race:
+            if isinstance(p.off, (FV, Half)): raise FieldWordOp('field word used as an offset')
+            return Ptr(p.obj, s.concretize(p.off, 64, 'offset into ' + str(p.obj.name)))
+        return p
     def bin1(s, op, a, b, t, ins):
         wd = t.bits if t.kind == 'int' else 64
         if op in ('udiv', 'urem', 'sdiv', 'srem') and not (is_c(a) and is_c(b)) and s.w.__dict__.get('concretize_div', False):
